@@ -227,7 +227,7 @@ template <class G> struct Monitor {
         R.count("noop_exactness_checks", noopChecks);
         R.count("setEdgeWeight_with_ulp_neighbour_tiny_or_negative_zero", specialWeights);
         specialWeights = 0;
-        R.count("long_histories_1200_to_2700_calls", longHistories);
+        R.count("long_histories_2000_to_4500_calls", longHistories);
         longHistories = 0;
         R.count("scale_histories_12_to_70_vertices", scaleHistories);
         { uint64_t &m1 = R.counter("largest_neighbour_list_seen_max"); m1 = std::max(m1, maxDegreeSeen); }
@@ -286,8 +286,9 @@ template <class G> struct Monitor {
                         return o.str();
                     }
                 } else {
-                    ++wAbsent;
                     auto gh = s.ghosts.find(s.m.key(i, j));
+                    if (n > 12 && gh == s.ghosts.end() && mix64(((uint64_t)i << 32) | j, s.hist.size()) % ((uint64_t)n * n) >= 150) continue;
+                    ++wAbsent;
                     int how = gh == s.ghosts.end() ? G_NONE : gh->second;
                     ++after[how];
                     Exc ex = classify([&] { g1 = s.g.getEdgeWeight(i, j); }, &what);
@@ -375,6 +376,8 @@ template <class G> struct Monitor {
             if (ph >= 9 && ph < 11) { wAdd = 0; wSet = 0; wRem = 5; wVertex = 30; wClear = 20; wLoops = 20; }
             else { wAdd = 60; wSet = 25; wRem = 3; wVertex = 0; wClear = 0; wLoops = 0; }
         }
+        if (style == 4) { wAdd = 40; wSet = 14; wRem = 36; wLoops = 3; wVertex = 4; wClear = 0; wResize = 1; }
+        if (style == 3) { wAdd = 50; wSet = 16; wRem = 26; wLoops = 1; wVertex = 1; wClear = 0; wResize = 1; }
         if (n >= maxN) wResize = 0;
         if (n == 0) { wAdd = wSet = wRem = wVertex = 0; wResize = 60; }
         unsigned tot = wAdd + wSet + wRem + wLoops + wVertex + wClear + wResize;
@@ -430,17 +433,20 @@ template <class G> struct Monitor {
             static const unsigned bigN[] = {12, 24, 40, 70};
             n0 = bigN[(sub / cfg.scaleEvery) % 4];
             maxN = n0 + 2;
-            len = 150 + r.u(n0 * 5);
+            len = 250 + r.u(n0 * 7);
             checkEvery = 8;
-            style = 0;
+            style = 3;
             pp.hub = (int)r.u(n0);
             ++scaleHistories;
         } else if (cfg.scaleEvery && sub % (cfg.scaleEvery * 4) == 11) {
-            len = 1200 + r.u(1500);
+            len = 2000 + r.u(2500);
             checkEvery = 16;
             n0 = 3 + r.u(4);
+            style = 4; // steady churn without clearEdges: hundreds of edges come and go on one object
             ++longHistories;
         }
+        if (scale) exact = (sub / cfg.scaleEvery) % 2 == 0;
+        else if (checkEvery == 16) exact = (sub / (cfg.scaleEvery * 4)) % 2 == 0;
         Subject<G> s(n0);
         Op prevOp;
         bool havePrev = false;
@@ -528,6 +534,7 @@ template <class G> struct Monitor {
             ++calls; ++callsByKind[DEDUP];
             if (!err.empty()) { R.violation(cls + "/removeDuplicateEdges/exception", err); return; }
             std::string e2 = checkAll(s, true);
+            if (e2.empty()) e2 = checkWeights(s, true); // total weight and every edge weight of the deduplicated graph
             if (!e2.empty()) { R.violation(cls + "/removeDuplicateEdges/" + observerOf(e2), "after removeDuplicateEdges: " + e2 + "; model " + s.m.str()); return; }
             // the same calls without force
             G u(n);
